@@ -2,6 +2,7 @@ package rules
 
 import (
 	"go/ast"
+	"go/constant"
 	"go/token"
 	"go/types"
 	"sort"
@@ -37,6 +38,9 @@ func c16(r *core.Run) {
 		"and a row exists for every number type; (R2) the ConvertT functions of sibling widths agree modulo the family parameters (or fall into the reviewed classes) and use only their own bounds; " +
 		"(R3) ConvertWordN raises no Overflow/Underflow kind for integer sources paths (reduction instead) while ConvertIntN/ConvertUIntN raise {Overflow, Underflow}; " +
 		"(R4) inside the Convert functions of non-Word targets every same-width Go conversion across signedness (uint64 → int64, fix.UFix128 → fix.Fix128, …) is dominated by a range test on the source value with a failing edge."
+	r.Explanation += " (R6) signed fixed-point conversion code divides with truncation (big.Int.Quo/Rem), never with the Euclidean Div/Mod (one reviewed exception); " +
+		"(R7) the Word conversions reduce with sign-preserving operations (Int64, Mod) and read a magnitude (Uint64, Bits, Bytes) only under a sign test; " +
+		"(R8) a conversion without rounding rule never reaches a *WithRounding conversion."
 	r.NotDecided = "value preservation per (source, target) pair; fixed-point scaling and rounding arithmetic."
 	w := r.W
 	p := w.Pkg("interpreter")
@@ -51,6 +55,10 @@ func c16(r *core.Run) {
 		r.Undecided("R1.rows", "interpreter.ConverterDeclarations", "table does not resolve")
 	}
 	r.Floor("R1.rows", 24)
+	// "truncating excess fractional digits toward zero": shared with C13/C15
+	c16WordMagnitude(r)
+	c16PlainNeverRounds(r)
+	euclidRule(r, "R6.truncdiv", func(fn *ssa.Function) bool { return !isFixArithmetic(fn) }, 20, 0)
 
 	isConv := func(g string) bool { return g == "interpreter.Convert§0" }
 	siblingRule(r, "R2.siblings", allFamilies, isConv)
@@ -89,7 +97,9 @@ func c17(r *core.Run) {
 	r.Explanation = "Decided clauses: (R1) every row of interpreter.StringValueParsers and interpreter.BigEndianBytesConverters names one numeric type only (receiver type, bit-size literal, constructor, native Go type, bounds, byte length) " +
 		"and a row exists for every number type; (R2) the parse primitive class per row depends only on signedness/kind: signed integer rows use the signed parser, unsigned and Word rows the unsigned parser; " +
 		"(R3) ToBigEndianBytes / NewTValueFromBigEndianBytes of sibling widths agree modulo the family parameters (or fall into the reviewed classes); (R4) in the shared fromBigEndianBytes native function only the byte-array error, `byteLength != 0` and `len(bytes) > byteLength` decide between nil and a result; " +
-		"(R5) every call of fixedpoint.CheckRange receives the fractional part scaled to the scale of the type's bounds."
+		"(R5) every call of fixedpoint.CheckRange receives the fractional part scaled to the scale of the type's bounds; " +
+		"(R6) interpreter.inRange accepts exactly the closed interval, decided on all nine outcomes of its two three-way comparisons (CMPSET); " +
+		"(R7) common.HexToAddress strips the 0x prefix with a prefix operation, not a character-set trim."
 	r.NotDecided = "round-trip equality on values; formatting; address/path string constructors."
 	w := r.W
 	p := w.Pkg("interpreter")
@@ -109,6 +119,8 @@ func c17(r *core.Run) {
 	c17Acceptance(r)
 	c17NilExact(r)
 	c17FractionScale(r)
+	c17InRange(r)
+	c17HexPrefix(r)
 	siblingRule(r, "R3.siblings", allFamilies, func(g string) bool {
 		return g == "interpreter.(§0Value).ToBigEndianBytes" || g == "interpreter.New§0ValueFromBigEndianBytes" || g == "..(§0).ToBigEndianBytes"
 	})
@@ -784,4 +796,236 @@ func signHazards(r *core.Run, rule, table string, sel func(recv string, method s
 	}
 	r.OK(rule, "scan", 0, itoa(n)+" sign-sensitive operations examined")
 	r.Floor(rule, 1)
+}
+
+// c16WordMagnitude: R7 — conversion to a Word type reduces the integer modulo 2^n, also for negative sources
+// (Word8(-1) == 255). big.Int.Int64 (two's complement low bits) and big.Int.Mod (Euclidean, result in [0, m)) are
+// sign-preserving reductions; the magnitude accessors Uint64 / Bits / Bytes / FillBytes / Abs drop the sign and reduce
+// |x| instead of x. Inside the ConvertWord* functions a magnitude accessor is only acceptable under a dominating test
+// of the value's sign.
+func c16WordMagnitude(r *core.Run) {
+	const rule = "R7.magnitude"
+	w := r.W
+	magnitude := map[string]bool{"Uint64": true, "Bits": true, "Bytes": true, "FillBytes": true, "Abs": true}
+	reducing := map[string]bool{"Int64": true, "Mod": true}
+	nRed := 0
+	for _, top := range w.SrcFuncsIn("interpreter") {
+		if top.Parent() != nil || top.Signature.Recv() != nil || !strings.HasPrefix(top.Name(), "ConvertWord") {
+			continue
+		}
+		for _, f := range core.WithAnon(top) {
+			for _, b := range f.Blocks {
+				for _, in := range b.Instrs {
+					c, ok := in.(ssa.CallInstruction)
+					if !ok {
+						continue
+					}
+					sc := c.Common().StaticCallee()
+					if sc == nil || sc.Pkg == nil || sc.Pkg.Pkg.Path() != "math/big" || sc.Signature.Recv() == nil || len(c.Common().Args) == 0 {
+						continue
+					}
+					if reducing[sc.Name()] {
+						nRed++
+						r.OK(rule, core.SSAKey(top)+": big.Int."+sc.Name(), c.Pos(), "sign-preserving reduction")
+						continue
+					}
+					if !magnitude[sc.Name()] {
+						continue
+					}
+					recv := c.Common().Args[0]
+					signTested := false
+					for _, gb := range f.Blocks {
+						if len(gb.Instrs) == 0 || !gb.Dominates(b) || gb == b {
+							continue
+						}
+						iff, ok := gb.Instrs[len(gb.Instrs)-1].(*ssa.If)
+						if !ok {
+							continue
+						}
+						seen := map[ssa.Value]bool{}
+						var dep func(v ssa.Value, d int) bool
+						dep = func(v ssa.Value, d int) bool {
+							if v == nil || seen[v] || d > 6 {
+								return false
+							}
+							seen[v] = true
+							if cl, ok := v.(*ssa.Call); ok {
+								if o := cl.Call.StaticCallee(); o != nil && o.Name() == "Sign" && len(cl.Call.Args) > 0 &&
+									core.OriginLeaves(cl.Call.Args[0]) == core.OriginLeaves(recv) {
+									return true
+								}
+							}
+							if vi, ok := v.(ssa.Instruction); ok {
+								for _, op := range vi.Operands(nil) {
+									if op != nil && *op != nil && dep(*op, d+1) {
+										return true
+									}
+								}
+							}
+							return false
+						}
+						if dep(iff.Cond, 0) {
+							signTested = true
+						}
+					}
+					r.Check(signTested, rule, core.SSAKey(top)+": big.Int."+sc.Name(), c.Pos(), "magnitude accessor under a dominating sign test",
+						"a Word conversion reads the magnitude of a big integer (big.Int."+sc.Name()+") without a dominating test of its sign: a negative source is reduced as |x| mod 2^n instead of x mod 2^n")
+				}
+			}
+		}
+	}
+	r.Check(nRed >= 3, rule, "interpreter.ConvertWord*: sign-preserving reductions", 0, itoa(nRed)+" found", "the reductions of the Word conversions were not found")
+	r.Floor(rule, 3)
+}
+
+// c16PlainNeverRounds: R8 — a conversion without a rounding rule truncates; the *WithRounding conversions have a different
+// contract for values below the target's resolution (they report an underflow where truncation yields zero, and clamp
+// where truncation overflows). A plain Convert<T> function must therefore never reach a *WithRounding function.
+func c16PlainNeverRounds(r *core.Run) {
+	const rule = "R8.plainround"
+	w := r.W
+	n := 0
+	for _, top := range w.SrcFuncsIn("interpreter") {
+		if top.Parent() != nil || top.Signature.Recv() != nil || !strings.HasPrefix(top.Name(), "Convert") || strings.HasSuffix(top.Name(), "WithRounding") {
+			continue
+		}
+		if c, _ := signClassOf(namedResult(top)); c == "" && !strings.HasPrefix(top.Name(), "ConvertWord") {
+			continue
+		}
+		n++
+		var hit ssa.Instruction
+		core.Instrs(top, true, func(in ssa.Instruction) {
+			if hit != nil {
+				return
+			}
+			if _, isCall := in.(ssa.CallInstruction); !isCall {
+				return
+			}
+			if core.CallReaches(in, func(c ssa.CallInstruction) bool {
+				sc := c.Common().StaticCallee()
+				return sc != nil && strings.HasSuffix(sc.Name(), "WithRounding")
+			}, 2) {
+				hit = in
+			}
+		})
+		pos := top.Pos()
+		if hit != nil {
+			pos = hit.Pos()
+		}
+		r.Check(hit == nil, rule, core.SSAKey(top), pos, "does not reach a *WithRounding conversion",
+			"a conversion without rounding rule goes through a *WithRounding conversion: values below the target's resolution abort with an underflow instead of truncating to zero")
+	}
+	r.Floor(rule, 20)
+}
+
+// c17InRange: R6 — the range check of the big-integer fromString parsers (interpreter.inRange) accepts exactly the closed
+// interval [low, high]: decided on the complete set of comparison outcomes (CMPSET), so any spelling of the two tests
+// is accepted and any change of an endpoint's inclusiveness is reported. T.fromString(T.max.toString()) must be T.max
+// for the 128/256-bit types as it is for the strconv-parsed narrower ones.
+func c17InRange(r *core.Run) {
+	const rule = "R6.inrange"
+	fn := mustFn(r, rule, "interpreter", "", "inRange")
+	if fn == nil {
+		return
+	}
+	keys, acc, ok := core.CmpAcceptance(fn)
+	if !ok || len(keys) != 2 || len(fn.Params) != 3 {
+		r.Undecided(rule, "interpreter.inRange", "not a function of two three-way comparisons of its parameters")
+		return
+	}
+	// which key compares against low (param#1) and which against high (param#2)
+	lowIdx, highIdx := -1, -1
+	for i, k := range keys {
+		if strings.Contains(k, "param#0:") && strings.Contains(k, "param#1:") {
+			lowIdx = i
+		}
+		if strings.Contains(k, "param#0:") && strings.Contains(k, "param#2:") {
+			highIdx = i
+		}
+	}
+	if lowIdx < 0 || highIdx < 0 || lowIdx == highIdx {
+		r.Undecided(rule, "interpreter.inRange", "comparisons are not val⋚low and val⋚high: "+strings.Join(keys, "; "))
+		return
+	}
+	// orientation: Cmp(val, bound) or Cmp(bound, val)
+	sign := func(k string) int64 {
+		if strings.Index(k, "param#0:") < strings.Index(k, "param#1:") || strings.Index(k, "param#0:") < strings.Index(k, "param#2:") {
+			return 1
+		}
+		return -1
+	}
+	for label, got := range acc {
+		parts := strings.Split(label, ",")
+		var cs [2]int64
+		for i, p := range parts {
+			switch p {
+			case "-1":
+				cs[i] = -1
+			case "1":
+				cs[i] = 1
+			}
+		}
+		cl := cs[lowIdx] * sign(keys[lowIdx])   // sign of val - low
+		ch := cs[highIdx] * sign(keys[highIdx]) // sign of val - high
+		want := cl >= 0 && ch <= 0
+		r.Check(got == want, rule, "interpreter.inRange: val-low "+cmpWord(cl)+", val-high "+cmpWord(ch), fn.Pos(),
+			"accepts exactly low <= val <= high", "the range check of the big-integer string parsers "+acceptWord(got)+" this ordering but the closed interval [low, high] "+acceptWord(want)+" it: fromString of a bound (T.min / T.max) of the 128/256-bit types differs from the narrower types")
+	}
+	r.Floor(rule, 9)
+}
+
+func cmpWord(c int64) string {
+	switch {
+	case c < 0:
+		return "< 0"
+	case c > 0:
+		return "> 0"
+	}
+	return "== 0"
+}
+
+func acceptWord(b bool) string {
+	if b {
+		return "accepts"
+	}
+	return "rejects"
+}
+
+// c17HexPrefix: R7 — the string constructors strip a fixed prefix ("0x") with a prefix operation. strings.TrimLeft /
+// TrimRight / Trim take a *set of characters*: with a cutset of two or more characters they also strip repetitions and
+// permutations ("0x0x01", "0xx1", any number of leading zeros), so which strings are accepted — and whether an over-long
+// input is rejected — would depend on the value of its digits. Every cutset trim with a constant cutset of more than
+// one character in the value packages is reported; HexToAddress must strip its prefix with TrimPrefix / CutPrefix.
+func c17HexPrefix(r *core.Run) {
+	const rule = "R7.hexprefix"
+	w := r.W
+	nTrim := 0
+	for _, rel := range []string{"common", "interpreter", "stdlib", "values"} {
+		for _, fn := range w.SrcFuncsIn(rel) {
+			if fn.Parent() != nil {
+				continue
+			}
+			for _, c := range core.Calls(fn, true) {
+				sc := c.Common().StaticCallee()
+				if sc == nil || sc.Pkg == nil || sc.Pkg.Pkg.Path() != "strings" || len(c.Common().Args) != 2 {
+					continue
+				}
+				switch sc.Name() {
+				case "TrimLeft", "TrimRight", "Trim":
+					nTrim++
+					cs, isConst := c.Common().Args[1].(*ssa.Const)
+					multi := !isConst || cs.Value == nil || len([]rune(constant.StringVal(cs.Value))) > 1
+					r.Check(!multi, rule, core.SSAKey(fn)+": strings."+sc.Name(), c.Pos(), "cutset of a single character",
+						"strings."+sc.Name()+" with a cutset of several characters strips any mix and repetition of them, not a prefix: malformed and over-long inputs are accepted depending on their digits")
+				}
+			}
+		}
+	}
+	if fn := mustFn(r, rule, "common", "", "HexToAddress"); fn != nil {
+		pre := core.CallsTo(fn, true, func(o *types.Func) bool {
+			return o != nil && o.Pkg() != nil && o.Pkg().Path() == "strings" && (o.Name() == "TrimPrefix" || o.Name() == "CutPrefix" || o.Name() == "HasPrefix")
+		})
+		r.Check(len(pre) > 0, rule, "common.HexToAddress: prefix operation", fn.Pos(), "strips 0x with a prefix operation", "HexToAddress no longer strips its 0x prefix with a prefix operation")
+	}
+	r.Floor(rule, 2)
 }
